@@ -3,7 +3,7 @@ import builder
 
 META = {
     "level": "other",
-    "trusted_base": ["B-sem of C07 (put writes exactly the masked bits inside the window)", "slice::IterMut visits every element once", "buildsem.py (abstract interpreter; encoders and put as uninterpreted writers of the window)",
+    "trusted_base": ["slice::IterMut visits every element once", "buildsem.py (abstract interpreter; encoders and put as uninterpreted writers of the window)",
                      "rustc MIR construction", "mirfacts exporter"],
     "explanation": "Typestate CLEAN = 'data[3..1026] is zero and data[0] = 0xD3'. new() establishes CLEAN with has_run = false (T-new); in "
                    "build_message every path to the assembler passes clear_data(self) or the edge has_run == false (T-gate: must-pass-through "
@@ -23,6 +23,8 @@ def run(ctx, res):
     builder.rules_new_clear(prog, res)
     m = builder.BuildModel(prog, res)
     builder.rules_typestate(prog, res, m)
+    import bitio
+    bitio.import_transport(prog, res, signed=False, which=("put",))
     builder.rules_frame_shape(prog, res, m)
     if ctx.tier == "thorough":
         # the test-vector generator path shares the buffer discipline (default feature set only)
